@@ -1,9 +1,9 @@
 """C10 — the multiscale metric is finite SPD (planar embedding in 2-D) and meets the requested complexity."""
-from . import streams_metric, streams_gradation, cli
+from . import streams_metric, streams_gradation, streams_reconpar, cli
 from .common import Stream
 
 ID = 'C10'
-PROPS_MODULE = ['Refine.Props.C10', 'Refine.Props.C10Gradation']
+PROPS_MODULE = ['Refine.Props.C10', 'Refine.Props.C10Gradation', 'Refine.Props.C10Par']
 
 
 def _gen_multiscale_mpi(rng, tier, np):
@@ -16,7 +16,7 @@ MULTISCALE_MPI = Stream('cli_multiscale_mpi', cli.cli_harness, None, _gen_multis
                         kind='oracle', np=[2, 3], nontrivial=lambda op, out: out.startswith('rc=0'), timeout=900)
 
 STREAMS = [streams_metric.COMPLEXITY, streams_metric.EIG, streams_metric.GAC, streams_gradation.SWEEP, streams_gradation.GAC,
-           streams_gradation.LP, cli.MULTISCALE, MULTISCALE_MPI]
+           streams_gradation.LP, cli.MULTISCALE, MULTISCALE_MPI, streams_reconpar.ROUNDOFF]
 
 EXPLANATION = (
     'Proved in Lean over the reals, about the executable model Refine/Model/Metric.lean (a statement-by-statement '
@@ -71,7 +71,17 @@ EXPLANATION = (
     'Also proved: the Lp exponent is -1/(2p+dim) and sends the coded determinant to det^(2p/(2p+dim)) in 3-D and, with '
     'the embedding, in 2-D (localScale_exponent_dim, localScale_det3, localScale_det2); floor + Lp normalisation give '
     'SPD for any Hessian (lp_front_spd); the stages of ref_metric_lp after the reconstruction return complexity exactly '
-    'the target and, in 2-D, embedded tensors (lpChain_split, lpChain_complexity).')
+    'the target and, in 2-D, embedded tensors (lpChain_split, lpChain_complexity). '
+    'Parallel floor (Props/C10Par.lean, model Model/ReconPar.roundoffLimitPar = the serial floor kernel on every '
+    'rank\'s stored mesh, every stored vertex, radius from the rank\'s own edges, then ref_node_ghost_dbl(recon, 6)): '
+    'for every rank count and every distribution satisfying the structural invariant WorldOK, when the floor step '
+    'succeeds on every rank the refresh completes and EVERY tensor held by EVERY rank - owned or ghost - is positive '
+    'definite (roundoffLimitPar_spd; ghost copies through C06Ghost.ghostRefresh_spec). Tie: stream reconpar_roundoff '
+    '(h_reconpar, np = 1, 2, 3): the real ref_recon_roundoff_limit on explicitly distributed 2-D and 3-D meshes with '
+    'SPD / indefinite / singular / zero / tiny Hessians, every stored vertex compared bit for bit with the model; '
+    'oracle: the output spectrum is the input spectrum raised to the floor 4e-12/r^2 of the GLOBAL shortest edge at '
+    'the vertex (so a floor computed from a rank-local mesh size is seen), bit-identical to the one-rank run, ghost '
+    'copies equal to their owners.')
 
 ASSUMPTIONS = [
     'theorems hold in exact real arithmetic about the model; IEEE rounding is modelled (Float instance, bit-compared '
@@ -97,6 +107,8 @@ ASSUMPTIONS = [
     'unconditional (limitAspectRatio2_field_embedded)',
     'parallel: the model is one rank\'s sum with ref_mpi_allsum as the identity; complexity_rank_sum covers the sum over '
     'ranks; ghost exchange (ref_node_ghost_dbl after every sweep) and the np > 1 run are covered end to end by '
-    'cli_multiscale_mpi only: the gradation model is the one-rank sweep (no 2-rank world was modelled)',
+    'cli_multiscale_mpi only: the gradation model is the one-rank sweep (no 2-rank world was modelled); the round-off '
+    'floor IS modelled on a World of ranks (C10Par); that the radius at an owned vertex equals the serial radius (all '
+    'edges at an owned vertex are stored) is tied and oracled (floor of the global shortest edge), not proved',
     'Python oracle arithmetic (fractions, integer square root, 50-digit decimal Jacobi) is trusted',
 ]
